@@ -36,7 +36,7 @@ def gen_history(rng, nops):
             return L + rng.choice([1, 2, 3, 7, 31, 70] + ([500, 5000] if rng.random() < 0.05 else []))
         if r < 0.85:
             return max(0, L - 1)
-        return rng.choice(["max", "max-1", 1 << 33, 1 << 33])
+        return rng.choice(["max", "max-1", 1 << 33, 1 << 33, 1 << 61, (1 << 61) + (1 << 60), (1 << 62) - 1, 1 << 63])
 
     if rng.random() < 0.02:
         # large-array phase: capacity beyond 8192 slots, then puts landing between 1x and 2.2x the capacity
